@@ -20,6 +20,7 @@ type Fate struct {
 	Delay   time.Duration // hold before delivery (reorders)
 	Replace []byte        // deliver these bytes instead (tamper)
 	From    net.Addr      // deliver with this source address instead
+	Stall   time.Duration // the sender's WriteTo blocks this long before the datagram leaves
 }
 
 // Datagram is one emitted datagram.
@@ -167,6 +168,11 @@ func (c *PacketConn) WriteTo(b []byte, addr net.Addr) (int, error) {
 	}
 	if n.OnEmit != nil {
 		n.OnEmit(d, f)
+	}
+	if f.Stall > 0 {
+		n.mu.Unlock()
+		time.Sleep(f.Stall)
+		n.mu.Lock()
 	}
 	if f.Drop {
 		return len(b), nil
